@@ -797,7 +797,7 @@ def sub_run(ctx):
     for gen in ("allneg:30", "fullrank:0.05", "degen:1.7", "degen:0"):
         for level, order in (("obj", "ineq_eq"), ("var", "eq_ineq")):
             cases.append(gen_case(ctx, SYSTEMS_QUICK, level=level, order=order, kind=KINDS[i % 4], gen=gen)); i += 1
-    for _ in range(ctx.n(70, 600) if not getattr(ctx, "widen", False) else 250):
+    for _ in range(ctx.n(55, 500) if not getattr(ctx, "widen", False) else 250):
         cases.append(gen_case(ctx, systems, heavy_ok=not ctx.quick))
     # fuel edge cases: 0 (error branch), 1 (no test at all), 2, 3 and a fuel that is hit exactly
     for mi in (0, 1, 2, 3, 5):
@@ -836,15 +836,21 @@ def chk_agree(ctx, case):
             w, t = restore(kind, B, m, R.X[R.K])
             feas = np.linalg.norm(eq_residual(kind, d, m, w)) <= 1e-12 * (1 + scale) and min_eig(kind, B, m, w) >= -1e-12 * (1 + scale)
             runs.append((level, order, R, float(gap), slack, ok, w, t, feas, scale))
-    # the func_ wrappers are the same routines (exactly)
+    # the func_ wrappers are the same routines (exactly) - the wrapper is taken from an object whose OWN mode_proj_order is the other
+    # one: the explicit argument has to win (dispatch proved for the regenerated text: gen_func_*_dispatch), and the object is left alone
     for level, order, R, g, slack, ok, w, t, feas, scale in runs:
+        other = "ineq_eq" if order == "eq_ineq" else "eq_ineq"
+        host = build(kind, c, base["sv"], m, para, other, eps)
         with contextlib.redirect_stdout(io.StringIO()):
             if level == "obj":
-                f = R.o.func_calc_proj_physical(on_para_eq_constraint=para, mode_proj_order=order, max_iteration=mi)
+                f = host.func_calc_proj_physical(on_para_eq_constraint=para, mode_proj_order=order, max_iteration=mi)
                 fv = np.array(f(var.copy()), dtype=float); ref = np.array(R.result.to_var(), dtype=float)
             else:
-                f = R.o.func_calc_proj_physical_with_var(on_para_eq_constraint=para, mode_proj_order=order, max_iteration=mi)
+                f = host.func_calc_proj_physical_with_var(on_para_eq_constraint=para, mode_proj_order=order, max_iteration=mi)
                 fv = np.array(f(var.copy()), dtype=float); ref = R.res_var
+        if host.mode_proj_order != other:
+            ctx.violation(sub, "QOperation.func_calc_proj_physical" + ("" if level == "obj" else "_with_var"), "mutates-receiver",
+                          "building / calling the wrapper changed the object's own mode_proj_order to %r" % host.mode_proj_order, dict(base, order=order, level=level))
         if fv.shape != ref.shape or np.abs(fv - ref).max() > 1e-12 * (1 + scale):
             ctx.violation(sub, "QOperation.func_calc_proj_physical" + ("" if level == "obj" else "_with_var"), "wrapper-differs",
                           "wrapper result differs from the direct call by %.3e" % (np.abs(fv - ref).max() if fv.shape == ref.shape else float("inf")), dict(base, order=order, level=level))
@@ -879,7 +885,7 @@ def sub_agree(ctx):
     cases = []
     for kind in KINDS:
         cases.append(gen_case(ctx, SYSTEMS_QUICK, kind=kind, gen="near:0.01"))
-    for _ in range(ctx.n(14, 100)):
+    for _ in range(ctx.n(14, 85)):
         cs = gen_case(ctx, systems, heavy_ok=not ctx.quick)
         cases.append(cs)
     ctx.sample("agree", dict(cases[0], sv=cases[0]["sv"][:4] + ["..."]))
@@ -1083,7 +1089,7 @@ FNS = {"criterion": chk_criterion, "config": chk_config, "physical": chk_physica
 
 
 # ------------------------------------------------------------------ translator tie (regenerate + re-prove), run in the background
-EQUIV_FILES = ["C05_EquivBase", "C05_EquivVar", "C05_EquivObj", "C05_EquivThm"]      # Var / Obj are compiled in parallel
+EQUIV_FILES = ["C05_EquivBase", "C05_EquivVar", "C05_EquivObj", "C05_EquivFunc", "C05_EquivThm"]      # Var / Obj / Func are compiled in parallel
 
 
 def regen_dykstra(scratch, repo):
@@ -1122,12 +1128,12 @@ def regen_dykstra(scratch, repo):
 
     compile_one("C05_EquivBase")
     if res["C05_EquivBase"][0] == 0:
-        ths = [threading.Thread(target=compile_one, args=(f,)) for f in ("C05_EquivVar", "C05_EquivObj")]
+        ths = [threading.Thread(target=compile_one, args=(f,)) for f in ("C05_EquivVar", "C05_EquivObj", "C05_EquivFunc")]
         for t in ths:
             t.start()
         for t in ths:
             t.join()
-        if res["C05_EquivVar"][0] == 0 and res["C05_EquivObj"][0] == 0:
+        if res["C05_EquivVar"][0] == 0 and res["C05_EquivObj"][0] == 0 and res["C05_EquivFunc"][0] == 0:
             compile_one("C05_EquivThm")
     for f in EQUIV_FILES:
         if f not in res:
